@@ -16,8 +16,11 @@ RULE = (
     "case = (1-3 PSM tables with spectrum multiplicities 1..5 and spectrum keys of 1-4 columns, folds 2..6, "
     "training cap absent/present, max_workers 1..8, read/predict chunk sizes 1..n+1, seed, text/Parquet); the real "
     "brew() is run with a recording estimator passed through the public Model API; folds, training sets and routing "
-    "are recovered from the recorded calls and the returned scores; distinct = distinct (hash vector structure, "
-    "folds, cap, sizes); non-trivial = some spectrum has >= 2 PSMs"
+    "are recovered from the recorded calls and the returned scores; the training sets are also compared with the "
+    "model of make_train_sets (ValueError of rng.choice <=> model reject), the whole run with the model `brewRun`, "
+    "the spectrum clauses are re-stated on the real key tuples, and on a sample of the runs brew() is called again "
+    "with the returned models (permuted / one missing / one untrained, other seed and chunk size); "
+    "distinct = distinct (hash vector structure, folds, cap, sizes); non-trivial = some spectrum has >= 2 PSMs"
 )
 
 
@@ -41,6 +44,11 @@ def gen_case(rng):
     if case["few_spectra"]:
         case["n_spectra"] = [rng.choice([2, 3, 4]) for _ in range(nfiles)]
         case["max_per"] = 5
+    # second call of brew() with the models of the first (None = not made)
+    case["rescore"] = rng.choice([None, None, None, None, None, "perm", "perm", "same", "missing", "extra", "untrained"])
+    case["seed2"] = rng.randrange(1000)
+    # (chunks of one or two rows are exercised by the first call; they make a call several times slower)
+    case["cpred2"] = rng.choice([3, 5, "n-1", "n", "n+1", 700000])
     return case
 
 
@@ -60,7 +68,7 @@ def run_case(chk, case):
 
     r = random.Random(case["data_seed"])
     with P.workdir() as d:
-        tabs, dss, offs = [], [], []
+        tabs, dss, offs, paths = [], [], [], []
         off = 0
         for k in range(case["nfiles"]):
             df = mkdata.make_psm_table(r, n_spectra=case["n_spectra"][k], max_per_spectrum=case["max_per"], n_feat=2,
@@ -72,6 +80,7 @@ def run_case(chk, case):
             tabs.append(df)
             p = mkdata.write_table(df, d / f"in{k}.{case['fmt']}", row_group_size=r.choice([None, 7, 50]))
             dss.append(mkdata.read_dataset(p))
+            paths.append(p)
         ntot = off
         hashes = [spectrum_hashes(ds) for ds in dss]
         spectra = [[tuple(x) for x in ds.spectra_dataframe[ds.spectrum_columns].values] for ds in dss]
@@ -92,6 +101,7 @@ def run_case(chk, case):
         except ValueError as e:
             if "Cannot take a larger sample" in str(e):
                 chk.reject("cap-larger-than-file-share")
+                check_choice_reject(chk, case, hashes, [len(t) for t in tabs], cap, nmax)
                 return
             if "PSMs were detected" in str(e) or "PSMs were available" in str(e):
                 chk.reject("training-set-without-targets-or-decoys")
@@ -121,6 +131,11 @@ def run_case(chk, case):
             chk.case(None, key, sample=dict(case={k: str(v) for k, v in case.items()}, outcome=outcome))
             if model_reject:
                 chk.reject("too-few-spectrum-groups-for-folds")
+                rr = common.driver_batch([req("brewrun", case["folds"], cap_arg(cap), csize(case["cread"], nmax),
+                                              csize(case["cpred"], nmax), hashes)])[0].strip()
+                chk.count("brewrun", "reject")
+                if rr != "reject":
+                    chk.corr_break("brewrun", dict(case=case, impl="IndexError", model=rr[:200], hashes=hashes))
             else:
                 chk.corr_break("split", dict(case=case, impl="IndexError", model="folds", hashes=hashes))
             return
@@ -188,6 +203,8 @@ def run_case(chk, case):
                 if not set(ids) <= set(train_ids[fold_of_tag[t]]):
                     problems.append("estimator-fit-on-rows-outside-training-set")
                     break
+        # the spectrum clauses re-stated on the real key tuples (independent of the hash expression)
+        problems += key_level_problems(case, spectra, impl_routing, impl_folds, impl_trains)
         # model comparison: fold membership (as sets) is determined by the hashes
         model_ok = True
         for k in range(case["nfiles"]):
@@ -202,6 +219,198 @@ def run_case(chk, case):
             chk.spec_violation("cv-integrity:" + problems[0].split(" ")[0].split(":")[-1], dict(info, clause=problems[0]))
         elif not model_ok:
             chk.corr_break("split", info)
+        if problems or not model_ok:
+            return
+        # ---- model of make_train_sets and of the whole run
+        compare_train_model(chk, case, info, hashes, [len(t) for t in tabs], cap, nmax, impl_folds, impl_trains,
+                            impl_routing, train_ids)
+        # ---- brew() again with the models just returned
+        rescore(chk, case, info, paths, run, models, scores, fold_of_tag, hashes, impl_trains, cap, nmax)
+
+
+def cap_arg(cap):
+    """the cap on the wire: [] = absent, [c] = present"""
+    return [] if cap is None else [int(cap)]
+
+
+def key_level_problems(case, spectra, impl_routing, impl_folds, impl_trains):
+    """C02 clauses on the spectrum-key tuples themselves: PSMs with the same key share a fold; no training row
+    has the key of a row of the held-out fold (same collection)"""
+    out = []
+    for k in range(case["nfiles"]):
+        keys = spectra[k]
+        first = {}
+        for i, key_ in enumerate(keys):
+            if first.setdefault(key_, impl_routing[k][i]) != impl_routing[k][i]:
+                out.append(f"file{k}:spectrum-split-across-folds(key)")
+                break
+        for f in range(case["folds"]):
+            held = {keys[i] for i in impl_folds[k][f]}
+            if any(keys[i] in held for i in impl_trains[k][f] if 0 <= i < len(keys)):
+                out.append(f"file{k}:training-row-shares-spectrum-with-held-out-fold(key)")
+                break
+    return out
+
+
+def check_choice_reject(chk, case, hashes, sizes, cap, nmax):
+    """brew raised the ValueError of rng.choice: the model of make_train_sets (fed with the model's folds, whose
+    membership is determined by the hashes) must refuse too, and so must the whole-run model"""
+    resp = common.driver_batch([req("split", case["folds"], h) for h in hashes])
+    if any(x.strip() == "reject-index" for x in resp):
+        chk.corr_break("split", dict(case=case, impl="past _split", model="reject-index", hashes=hashes))
+        return
+    mfolds = [[[int(x) for x in fold] for fold in _as_lists(dec(r_))] for r_ in resp]
+    r = common.driver_batch([
+        req("maketrain", cap_arg(cap), sizes, mfolds),
+        req("brewrun", case["folds"], cap_arg(cap), csize(case["cread"], nmax), csize(case["cpred"], nmax), hashes)])
+    chk.count("maketrain", "reject-choice")
+    chk.count("brewrun", "reject")
+    if r[0].strip() != "reject-choice":
+        chk.corr_break("maketrain", dict(case=case, impl="ValueError(rng.choice)", model=r[0][:300], cap=cap,
+                                         sizes=sizes))
+    elif r[1].strip() != "reject":
+        chk.corr_break("brewrun", dict(case=case, impl="ValueError(rng.choice)", model=r[1][:300]))
+
+
+def compare_train_model(chk, case, info, hashes, sizes, cap, nmax, impl_folds, impl_trains, impl_routing, train_ids):
+    """training sets of the real run vs `makeTrainSets` (per fold and file: everything outside the held-out fold
+    without sub-sampling, exactly the file's share with it) and vs the whole-run model `brewRun` (training table of
+    every fold model over all files, routing of every row)"""
+    nf, folds = case["nfiles"], case["folds"]
+    r = common.driver_batch([
+        req("maketrain", cap_arg(cap), sizes, impl_folds),
+        req("brewrun", folds, cap_arg(cap), csize(case["cread"], nmax), csize(case["cpred"], nmax), hashes)])
+    mt = dec(r[0])
+    if not isinstance(mt, list):
+        chk.count("maketrain", str(mt))
+        chk.corr_break("maketrain", dict(info, impl="training sets", model=str(mt)))
+        return
+    applies, bad = [], None
+    for f, ent in enumerate(mt):
+        flag, per_file = common.a_bool(ent[0]), ent[1]
+        applies.append(flag)
+        for k in range(nf):
+            m = [int(x) for x in per_file[k]]
+            got = impl_trains[k][f]
+            ok = (len(got) == len(m)) if flag else (sorted(got) == sorted(m))
+            if not ok and bad is None:
+                bad = dict(fold=f, file=k, subsampled=flag, impl=got[:50], model=m[:50])
+    if len(mt) != folds and bad is None:
+        bad = dict(model_folds=len(mt))
+    chk.count("maketrain", "ok")
+    chk.count("cap-applies", "none" if not any(applies) else ("all-folds" if all(applies) else "some-folds"))
+    if bad is not None:
+        chk.corr_break("maketrain", dict(info, **bad))
+        return
+    br = dec(r[1])
+    if not isinstance(br, list):
+        chk.count("brewrun", str(br))
+        chk.corr_break("brewrun", dict(info, impl="scores", model=str(br)))
+        return
+    chk.count("brewrun", "ok")
+    models_m, routing_m = br
+    bad = None
+    if len(models_m) != folds:
+        bad = dict(model_models=len(models_m))
+    for f, ent in enumerate(models_m):
+        if bad is not None:
+            break
+        num, rows = int(ent[0]), [int(x) for x in ent[1]]
+        got = train_ids[f]
+        ok = num == f + 1 and ((len(got) == len(rows)) if applies[f] else (sorted(got) == sorted(rows)))
+        if not ok:
+            bad = dict(fold=f, model_fold_number=num, subsampled=applies[f], impl=sorted(got)[:50], model=sorted(rows)[:50])
+    for k in range(nf):
+        if bad is None and [int(x) for x in routing_m[k]] != impl_routing[k]:
+            bad = dict(file=k, impl_routing=impl_routing[k][:80], model_routing=[int(x) for x in routing_m[k]][:80])
+    if bad is not None:
+        chk.corr_break("brewrun", dict(info, **bad))
+
+
+RESCORE_ERR = {"reject-ValueError": (ValueError, "must match the number of folds"),
+               "reject-RuntimeError": (RuntimeError, "not previously trained")}
+
+
+def rescore(chk, case, info, paths, run, models, scores, fold_of_tag, hashes, impl_trains, cap, nmax):
+    """`brew(psms, model=[the models just returned])` in another order / with one missing, one too many or one
+    untrained, another seed and prediction chunk size: accepted iff the model `pretrained` accepts; then every
+    PSM must again be scored by a model that was trained without its spectrum (training sets of the FIRST run),
+    the models come back in fold order and the scores are those of the first run (C02_rescoring_same_scores)"""
+    import random
+    import mokapot
+
+    kind = case.get("rescore")
+    if not kind:
+        return
+    folds = case["folds"]
+    r2 = random.Random(case["data_seed"] + 7)
+    given = list(models)
+    if kind != "same":
+        r2.shuffle(given)
+    if kind == "missing":
+        given = given[:-1]
+    elif kind == "extra":
+        given = given + [given[0]]
+    elif kind == "untrained":
+        j = r2.randrange(len(given))
+        fresh = mokapot.Model(recest.TagProba(run=run), scaler="as-is", train_fdr=0.5, max_iter=2, override=True, rng=0)
+        fresh.fold = given[j].fold
+        given[j] = fresh
+    chk.count("rescore", kind)
+    exp = dec(common.driver_batch([req("pretrained", folds, [int(m.fold) for m in given],
+                                       [bool(m.is_trained) for m in given])])[0])
+    dss2 = [mkdata.read_dataset(p) for p in paths]
+    try:
+        with P.chunk_sizes(predict=csize(case["cpred2"], nmax)):
+            _, models2, scores2, _ = mokapot.brew(dss2, given, test_fdr=0.5, folds=folds,
+                                                  max_workers=case["workers"], rng=case["seed2"])
+        got = "ok"
+    except (ValueError, RuntimeError) as e:
+        got = None
+        for name, (cls, msg) in RESCORE_ERR.items():
+            if type(e) is cls and msg in str(e):
+                got = name
+        if got is None:
+            chk.spec_violation("exception:rescore-" + type(e).__name__,
+                               dict(info, error=str(e)[:300], clause="brew with the returned models raised"))
+            return
+    chk.count("rescore-outcome", got)
+    info = dict(info, rescore=kind, given_folds=[int(m.fold) for m in given])
+    if not isinstance(exp, list):
+        if got != exp:
+            chk.corr_break("pretrained", dict(info, impl=got, model=exp))
+        return
+    if got != "ok":
+        chk.corr_break("pretrained", dict(info, impl=got, model="accepted"))
+        return
+    # the property on the second run: routing by the identity (tag) of the scoring model, training sets of run 1
+    problems = []
+    if [m.fold for m in models2] != list(range(1, folds + 1)):
+        problems.append("rescore-models-not-in-fold-order")
+    reqs, routings2 = [], []
+    for k, sc in enumerate(scores2):
+        sc = np.asarray(sc, dtype=np.int64).ravel()
+        tag = sc % recest.TAGMOD
+        if len(sc) != len(hashes[k]) or any(int(t) not in fold_of_tag for t in tag):
+            chk.spec_violation("scores", dict(info, clause="rescore: score-count / scored-by-unknown-model"))
+            return
+        routing = [fold_of_tag[int(t)] for t in tag]
+        routings2.append(routing)
+        folds2 = [[i for i, f in enumerate(routing) if f == g] for g in range(folds)]
+        reqs.append(req("brewspec", folds, hashes[k], folds2, impl_trains[k], cap is not None, routing))
+    for k, r_ in enumerate(common.driver_batch(reqs)):
+        failed = deep(a_str, dec(r_))
+        failed = failed if isinstance(failed, list) else [failed]
+        problems += [f"file{k}:rescore-{c}" for c in failed if c]
+    if problems:
+        chk.spec_violation("cv-integrity:" + problems[0].split(":")[-1], dict(info, problems=problems[:6], clause=problems[0]))
+        return
+    order_ok = [given[int(p_)].estimator.tag_ for p_ in exp] == [m.estimator.tag_ for m in models2]
+    same = all(np.array_equal(np.asarray(a).ravel(), np.asarray(b).ravel()) for a, b in zip(scores, scores2))
+    if not order_ok:
+        chk.corr_break("pretrained", dict(info, impl=[m.estimator.tag_ for m in models2], model=exp))
+    elif not same:
+        chk.corr_break("rescore", dict(info, impl="scores differ from the first run"))
 
 
 def _as_lists(v):
@@ -235,20 +444,27 @@ def search(chk):
 
 
 def main(chk, args):
-    build = common.build_and_audit("C02")
+    build = common.build_and_audit("C02", extra_targets=["MokapotVerif.Mutants.Brew"])
     if not build.driver_ok:
         chk.finish(build, RULE)
     predict_sweep(chk)
     n = chk.scale(40 if chk.tier == "quick" else 400)
     for _ in range(n):
         run_case(chk, gen_case(chk.rng))
-    lc = common.leanchecker("C02") if chk.tier == "thorough" else None
+    lc = None
+    if chk.tier == "thorough":
+        lcs = [common.leanchecker("C02"), common.leanchecker("C02Multi")]
+        lc = (all(x[0] for x in lcs), "\n".join(x[1] for x in lcs))
     chk.assumptions += [
         "the recording estimator observes the rows handed to Model.fit through the first scoring call of the "
         "training loop; which model scored a row is read from the low bits of the returned score",
         "crc32 hashes are computed by the harness with the expression of dataset.py:653-661 on the dataset's "
         "spectra_dataframe and handed to the model; zlib.crc32, numpy argsort/unique/searchsorted/split are trusted",
         "joblib returns task results in submission order; list.append is atomic under the GIL",
+        "re-scoring: which model scored a row in the second brew() call is read from the score tag of the model "
+        "instance (assigned at its first fit in the first call); its training rows are those logged in the first call",
+        "the 5 000 000-row inner loop of make_train_sets is proved equal to the one-step complement "
+        "(C02_train_loop_eq_complement) but not driven (no dataset of that size is generated)",
     ]
     chk.finish(build, RULE, search=search, lc=lc,
                trusted_extra=["numpy argsort/unique/searchsorted/split/Generator, joblib, pandas concat/reindex"])
